@@ -43,6 +43,12 @@ BOUNDED = {
         statement="for a valid document the generated classes and their properties do not depend on the order of "
                   "components.schemas (parents after children, forward references, single-reference wrappers)",
         bound="two families of 4 schemas, all 24 orders each"),
+    "name_collision": dict(
+        unit=P + "properties.enum_property:EnumProperty.build / model_property:ModelProperty.build (class name conflicts)",
+        where="openapi_python_client/parser/properties/enum_property.py",
+        statement="two document items whose derived class names coincide are either the same enum (same values in the same "
+                  "order) or a diagnostic is issued; never one silently replacing the other",
+        bound="two schemas (inline enum/inline enum over 5 value lists, model/inline enum, model/model), both orders"),
 }
 
 
